@@ -24,6 +24,9 @@ CHECKS = {
  "C09": ("model_checking", "Exhaustive enumeration of environment answers on the real runtime: all 2^(n-1) chunkings of small documents, all single/pair split points of medium ones, UTF-16LE/BE vs UTF-8 with unit chunkings, BFS over prior parser histories to depth 3, cancellation at every progress-callback index and every pair followed by resume or reset (fresh and incremental parses); every run compared with a fresh whole-buffer parse.",
          "Cancellation points exist every 100 parser operations. Two known findings (recovery shape depends on encoding for erroneous text; partition-style chunkers that cut characters).",
          "deviation-bounded exhaustive enumeration of environment answers (chunk boundaries, encodings, histories, cancellation indices)", "DESIGN.md §2 C09"),
+ "C13": ("model_checking", "For every small document of the zoo languages (with and without external scanners) and EVERY list of up to 2-4 included ranges over all byte positions (plus beyond-EOF positions), the tree parsed with ranges is compared with the tree of the concatenated text under the offset map; leaves must not reach into excluded text; Tree/Parser::included_ranges read back; complete setter-validation box.",
+         "Shape equality only when the concatenation is error-free. Known findings: ranges cutting multi-byte characters; ERROR-leaf extents at seams.",
+         "bounded-exhaustive enumeration of (document, range list) with a concatenation reference", "DESIGN.md §2 C13"),
 }
 REASON_WIP = "check not built yet (work in progress; see DESIGN.md build order)"
 def main():
